@@ -114,7 +114,7 @@ pub(crate) mod verif_keyring {
     pub static mut KDF_PWLEN: [usize; 3] = [0; 3];
     pub static mut KDF_SALT: [[u8; 32]; 3] = [[0; 32]; 3];
     pub static mut KDF_OUT: [[u8; 32]; 3] = [[0; 32]; 3];
-    pub static mut KDF_N: usize = 0;
+    pub static mut KDF_N: crate::Z8 = crate::Z8(0);
     pub static mut KDF_PARAMS_OK: bool = true;
     pub fn scrypt_model(password: &[u8], salt: &[u8], n: usize, r: usize, p: usize, dk_len: usize) -> Vec<u8> {
         unsafe {
@@ -123,12 +123,12 @@ pub(crate) mod verif_keyring {
             let long = password.len() == 132;
             let pl = if long { 4 } else { password.len() };
             let mut i = 0;
-            while i < KDF_N {
+            while i < KDF_N.0 {
                 if KDF_PWLEN[i] == password.len() && eq(password, &KDF_PW[i], pl) && (!long || eq(password, &KDF_LONG[i], 132)) && eq(salt, &KDF_SALT[i], 32) { return KDF_OUT[i].to_vec(); }
                 i += 1;
             }
-            assert!(KDF_N < 3, "[LIMIT] harness bound: three distinct scrypt inputs");
-            let k = KDF_N;
+            assert!(KDF_N.0 < 3, "[LIMIT] harness bound: three distinct scrypt inputs");
+            let k = KDF_N.0;
             // (guarded per-byte copy: a symbolic-length memcpy into the table is mis-modelled by the back end)
             let mut j = 0;
             while j < 4 { if j < pl { KDF_PW[k][j] = password[j]; } j += 1; }
@@ -138,9 +138,9 @@ pub(crate) mod verif_keyring {
             let o: [u8; 32] = kani::any();
             // injective: a new (password, salt) never yields an earlier key
             let mut i = 0;
-            while i < KDF_N { kani::assume(o != KDF_OUT[i]); i += 1; }
+            while i < KDF_N.0 { kani::assume(o != KDF_OUT[i]); i += 1; }
             KDF_OUT[k] = o;
-            KDF_N += 1;
+            KDF_N.0 += 1;
             o.to_vec()
         }
     }
@@ -188,7 +188,7 @@ pub(crate) mod verif_keyring {
         let sk = PrivateKey::try_from(&skb[..]).unwrap();
         let locked = Keyring::lock_private_key(&sk, &pwb[..pl], salt);
         unsafe {
-            assert!(KDF_PARAMS_OK && KDF_N == 1, "[C15] the locking key is scrypt(password, salt, 32768, 8, 1) -> 32 bytes");
+            assert!(KDF_PARAMS_OK && KDF_N.0 == 1, "[C15] the locking key is scrypt(password, salt, 32768, 8, 1) -> 32 bytes");
             assert!(KDF_PWLEN[0] == pl, "[C15] scrypt gets the password (length)");
             assert!(eq(&KDF_PW[0], &pwb, pl), "[C15] scrypt gets the password (bytes)");
             assert!(eq(&KDF_SALT[0], &salt, 32), "[C15] scrypt gets the salt");
@@ -216,6 +216,7 @@ pub(crate) mod verif_keyring {
         kani::cover!(pl == 0 && pl2 == 1);
         kani::cover!(pl == 4 && pl2 == 4);
         core::mem::forget(sk); core::mem::forget(un); core::mem::forget(un2);
+        env_guard();
     }
 
     /// C15/C16: long passwords (132 bytes, longer than any block or name limit) count in full: two passwords that
@@ -243,6 +244,7 @@ pub(crate) mod verif_keyring {
         kani::cover!(k == 131);
         kani::cover!(k == 0);
         core::mem::forget(sk); core::mem::forget(un); core::mem::forget(un2);
+        env_guard();
     }
 
     /// C15: a change to any one of the 84 bytes (any non-zero xor), and blobs of any other length.
@@ -289,23 +291,24 @@ pub(crate) mod verif_keyring {
         kani::cover!(!other_len && k == 83);
         kani::cover!(other_len && unsafe { B64.att_len } == 0);
         core::mem::forget(sk);
+        env_guard();
     }
 
     // ---------------------------------------------------------------- public keys: checksum
     pub static mut SHA_IN: [u8; 32] = [0; 32];
-    pub static mut SHA_INLEN: usize = 0;
+    pub static mut SHA_INLEN: crate::Z8 = crate::Z8(0);
     pub static mut SHA_OUT: [u8; 32] = [0; 32];
-    pub static mut SHA_N: usize = 0;
+    pub static mut SHA_N: crate::Z8 = crate::Z8(0);
     pub fn sha_model(data: &[u8]) -> Vec<u8> {
         unsafe {
             // deterministic: the same input gives the same output
-            if SHA_N >= 1 && data.len() == SHA_INLEN && eq(data, &SHA_IN, SHA_INLEN) { SHA_N += 1; return SHA_OUT.to_vec(); }
-            assert!(SHA_N == 0 && data.len() == 32, "[C17] the checksum hashes exactly the 32 key bytes");
+            if SHA_N.0 >= 1 && data.len() == SHA_INLEN.0 && eq(data, &SHA_IN, SHA_INLEN.0) { SHA_N.0 += 1; return SHA_OUT.to_vec(); }
+            assert!(SHA_N.0 == 0 && data.len() == 32, "[C17] the checksum hashes exactly the 32 key bytes");
             SHA_IN.copy_from_slice(data);
-            SHA_INLEN = 32;
+            SHA_INLEN.0 = 32;
             let o: [u8; 32] = kani::any();
             SHA_OUT = o;
-            SHA_N = 1;
+            SHA_N.0 = 1;
             o.to_vec()
         }
     }
@@ -349,6 +352,7 @@ pub(crate) mod verif_keyring {
             let e = EncodedPk::try_from("XXXXXXXXXXXXXXXXXXXXXXXXXXXXXXXXXXXXXXXXXXXXXXXX");
             assert!(e.is_err(), "[C17,C09] a string that does not decode to exactly 36 bytes is not a public key");
         }
+        env_guard();
     }
 
     // ---------------------------------------------------------------- lookups
@@ -382,6 +386,7 @@ pub(crate) mod verif_keyring {
         kani::cover!(n == 3 && q == 2);
         kani::cover!(n == 0);
         core::mem::forget(kr); core::mem::forget(got);
+        env_guard();
     }
 
     /// C17/C09: valid_key_name: 1..=128 bytes.
@@ -393,6 +398,7 @@ pub(crate) mod verif_keyring {
         kani::assume(n <= 130);
         let s = unsafe { core::str::from_utf8_unchecked(&buf[..n]) };
         assert!(Keyring::valid_key_name(s) == (n >= 1 && n <= 128), "[C17] a key name is valid iff it has 1..=128 bytes");
+        env_guard();
     }
 
     // ---------------------------------------------------------------- the parser
@@ -458,6 +464,7 @@ pub(crate) mod verif_keyring {
         name_roundtrip(2);
         name_roundtrip(3);
         assert!(!unsafe { STR_LIMIT }, "[LIMIT] E-STR models are exact for ASCII text only");
+        env_guard();
     } }
     str_stubs! {
     /// C17(2), concrete-input variant for the quick tier (the parser's control flow depends on every byte, so solver-chosen
@@ -483,6 +490,7 @@ pub(crate) mod verif_keyring {
             i += 1;
         }
         assert!(!unsafe { STR_LIMIT }, "[LIMIT] E-STR models are exact for ASCII text only");
+        env_guard();
     } }
     str_stubs! {
     /// Known finding F4: a name containing a TAB does not round-trip (the parser deletes every TAB). Fully concrete input.
@@ -496,6 +504,7 @@ pub(crate) mod verif_keyring {
         assert!(kr.is_ok() && kr.as_ref().unwrap().keys.len() == 1 && kr.as_ref().unwrap().keys[0].name.as_bytes() == &name[..],
                 "[C17] KF-F4 a key name containing a TAB, as written by key generation, parses back to itself");
         core::mem::forget(kr);
+        env_guard();
     } }
 
     str_stubs! {
@@ -522,8 +531,21 @@ pub(crate) mod verif_keyring {
         for _l in "p\nq\n".lines() { n += 1; }
         assert!(n == 2);
         assert!(!unsafe { STR_LIMIT });
+        env_guard();
     } }
 
+    /// Called at the end of every CLI harness: Kani 0.68 may compile liballoc's constant `Cap::ZERO` to a read of ONE of the
+    /// harness's zero-initialised 8-byte statics (upstream or local - whichever its allocation cache met first). If that
+    /// static has been written, every later `Vec::new()` / `String::new()` has a phantom capacity. A phantom capacity
+    /// cannot make a failing harness pass (every use of such a container is a reported pointer failure), but it can make
+    /// a passing one fail; this guard turns that into an explicit `[LIMIT]` (=> inconclusive) instead of a puzzle.
+    pub fn env_guard() {
+        let v = Vec::<u8>::new();
+        let k = Vec::<Key>::new();
+        let s = String::new();
+        assert!(v.capacity() == 0 && k.capacity() == 0 && s.capacity() == 0,
+                "[LIMIT] environment: a standard-library constant is aliased with a harness static that was written (Kani 0.68 defect, DESIGN 7.9)");
+    }
     /// Environment guard: Kani 0.68 conflates a constant with an upstream static of identical initial bytes (see
     /// harness/env/ct-codecs-kani/src/kani_model.rs). After the model's state has been written, fresh containers must still
     /// be empty with capacity 0 - if this fails, every verdict of the CLI harnesses is suspect.
@@ -564,6 +586,7 @@ pub(crate) mod verif_keyring {
         kani::cover!(kr.is_err() && n1 != n2);
         assert!(!unsafe { STR_LIMIT }, "[LIMIT] E-STR models are exact for ASCII text only");
         core::mem::forget(kr);
+        env_guard();
     } }
 
     /// C17(1b): ten concrete section shapes, run one after the other (concrete inputs: the parser is executed, not solved).
@@ -599,6 +622,7 @@ pub(crate) mod verif_keyring {
             i += 1;
         }
         assert!(!unsafe { STR_LIMIT }, "[LIMIT] E-STR models are exact for ASCII text only");
+        env_guard();
     } }
     // ------------------------------------------------------------------ C17(1): all token sequences up to a length bound
     // Every line of the text is one of NT tokens, padded with blanks to a common width (the parser trims), so the text has
@@ -699,11 +723,11 @@ pub(crate) mod verif_keyring {
     /// C17(1): EVERY file of 4 lines over the 10 line tokens (10^4 files): accepted iff the documented rule accepts, entries
     /// = sections in order.
     #[kani::unwind(16)]
-    pub fn c17_tokens_l4() { token_sequences(4); } }
+    pub fn c17_tokens_l4() { token_sequences(4); env_guard(); } }
     str_stubs! {
     /// C17(1): EVERY file of 6 lines over the 10 line tokens (10^6 files; two complete sections fit).
     #[kani::unwind(16)]
-    pub fn c17_tokens_l6() { token_sequences(6); kani::cover!(true); } }
+    pub fn c17_tokens_l6() { token_sequences(6); kani::cover!(true); env_guard(); } }
 
     fn format_two(n1: &str, p1: &str, n2: &str, p2: &str) -> String {
         let mut t = String::from("[Key]\nName = ");
